@@ -132,7 +132,9 @@ class CodeData(DataclassHideDefault):
         Iterates through all the code data which are included,
         by processing the arguments recursively.
         """
-        # A code object can be loaded by more than one instruction, only yield it once
+        # A constant can be loaded by more than one instruction, only yield it once.
+        # Two entries of the constants with equal values are different args, since
+        # they are kept apart by their index.
         seen = set()
         for block in self.blocks:
             for instruction in block:
@@ -140,9 +142,9 @@ class CodeData(DataclassHideDefault):
                 if (
                     isinstance(arg, Constant)
                     and isinstance(arg.constant, CodeData)
-                    and arg.constant not in seen
+                    and arg not in seen
                 ):
-                    seen.add(arg.constant)
+                    seen.add(arg)
                     yield arg.constant
         # Code objects which no instruction references are kept as additional args
         for additional_arg in self._additional_args:
